@@ -1479,6 +1479,464 @@ def gen_mixed_paragraph(r, clsname, behavior):
     return gen_case(r, clsname, behavior, [], 'text', force=force)
 
 
+# ---------------------------------------------------------------------------
+# BUILD ROUTES: a paragraph "built from a list of records" that is NOT built by assigning one finished list.
+# A route case (case['mode'] == 'route') is a list of primitive steps, run on the live object and on the record
+# model side by side; every dump (intermediate ones and the final one) is judged exactly as for the finished-list
+# route (dump returns, width rule, re-parse gives the model's records).
+#
+#   ['new', how, items]             how: 'empty' = cls() | 'mapping' = cls(m) | 'kw' = cls(sequence=m) |
+#                                   'deb822dict' = cls(Deb822Dict(m)); items: [key, 'plain', value] |
+#                                   [key, 'records', field, chunks] | [key, 'text', field, records, layout, value string]
+#   ['behavior', value, 'attr' | 'setter']
+#   ['plain', key, value, how]      how: setitem | update | setdefault
+#   ['put', key, field, how, chunks, alias]   how: setitem | update-mapping | update-pairs | update-kw | setdefault;
+#                                   chunks may be [] (the empty list the field starts from); alias: hand over the
+#                                   very list object of another parsed paragraph
+#   ['grow', key, field, access, method, chunks]   access: 'getitem' | 'get' | 'held' | ['setdefault', chunks];
+#                                   method: append | extend | extend-gen | insert0 | iadd | concat | slice
+#   ['hold', key, field, access]    keep the list the access returns; later 'held' grows go through it
+#   ['read', key, field, how]       see ROUTE_READS_*; changes nothing in the model
+#   ['update-from', source index]   obj.update(<another parsed paragraph of the same class>)
+#   ['callerlist', key, field, chunks before, chunks after]   lst = [..]; probe[key] = lst; lst.extend(..) on a
+#                                   THROW-AWAY object: counted, never judged
+#   ['dump', via]                   intermediate dump (judged)
+#
+# chunk: ['new', tokens, rectype, int size?] (one record made by the caller) or ['src', source index, source field,
+# selection, how] (records of the library's own making, taken out of another parsed paragraph: selection
+# ['idx', [i..]] | ['slice', a, b, step] | ['reversed'] | ['sorted', column] | ['filter-len', column, k] | ['whole'];
+# how: same (the object itself) | dict (dict(r)) | copy (r.copy()) | deb822dict (Deb822Dict(r)) | items
+# (dict(r.items()))).
+
+ROUTE_TEMPLATES = ('empty+append', 'empty+extend', 'empty+insert0', 'empty+iadd', 'empty+get.append', 'empty+held',
+                   'setdefault.append', 'setdefault.extend', 'setdefault-held', 'setdefault-rec0', 'setdefault-put',
+                   'update-mapping', 'update-pairs', 'update-kw', 'update-empty+append', 'first+grow', 'concat',
+                   'ctor-records', 'ctor-text', 'from-paragraph', 'foreign-list', 'setitem')
+ROUTE_RANDOM_MENU = ROUTE_TEMPLATES + ('empty+append', 'setdefault.append', 'setdefault-held', 'setdefault-rec0',
+                                       'first+grow', 'empty+held')
+ROUTE_NEW_HOWS = ('mapping', 'kw', 'deb822dict')
+ROUTE_RECTYPES = ('dict', 'dict', 'dict', 'deb822dict', 'deb822dict', 'dict-rev', 'deb822dict-pairs', 'ordereddict')
+ROUTE_SRC_HOWS = ('same', 'same', 'dict', 'copy', 'deb822dict', 'items')
+ROUTE_READS_LIST = ('getitem', 'get', 'get-default', 'len', 'bool', 'iter', 'list-copy', 'contains')  # held as a list
+ROUTE_READS_NONEMPTY = ('rec-read', 'rec-read')                                                # ... with >= 1 record
+ROUTE_READS_PRESENT = ('getitem', 'get', 'get-default', 'contains')                            # any present field
+ROUTE_READS_ABSENT = ('getitem-absent', 'get', 'get-default', 'contains')                      # absent field
+ROUTE_READS_OBJECT = ('items', 'values', 'keys', 'len-obj', 'repr', 'dict', 'eq')              # whole paragraph
+ROUTE_READS_DUMPABLE = ('get_as_string', 'str')         # only when every present structured field has >= 1 record
+ROUTE_ENUM_REPS = {'quick': 3, 'thorough': 100}         # per (config, structured field, template)
+ROUTE_RANDOM = {'quick': 3600, 'thorough': 140000}      # random route paragraphs (every field its own route)
+ROUTE_DECOY_SIZE = '9' * 21                             # size of a record that must never show up
+
+
+def route_compat(clsname, f):
+    """[(class, field)] whose documented sub-field names are exactly those of `f` (records are interchangeable)."""
+    names = mv.DOC[clsname][f]
+    return [(c2, f2) for c2 in sorted(mv.DOC) for f2 in sorted(mv.DOC[c2]) if mv.DOC[c2][f2] == names]
+
+
+def route_sel_indices(sel, recs):
+    n = len(recs)
+    k = sel[0]
+    if k == 'idx':
+        return list(sel[1])
+    if k == 'slice':
+        return list(range(n))[slice(sel[1], sel[2], sel[3])]
+    if k == 'reversed':
+        return list(range(n - 1, -1, -1))
+    if k == 'sorted':
+        return sorted(range(n), key=lambda i: recs[i][sel[1]])
+    if k == 'filter-len':
+        return [i for i in range(n) if len(recs[i][sel[1]]) <= sel[2]]
+    if k == 'whole':
+        return list(range(n))
+    raise ValueError('unknown selection %r' % (sel,))
+
+
+def route_tokens(case, chunks):
+    """Model side of a chunk list: the token lists it stands for."""
+    out = []
+    for ch in chunks:
+        if ch[0] == 'new':
+            out.append(list(ch[1]))
+        else:
+            recs = case['srcs'][ch[1]]['expect'][ch[2]]
+            out.extend(list(recs[i]) for i in route_sel_indices(ch[3], recs))
+    return out
+
+
+def route_model(state, step, case, outcome=None):
+    """Effect of one route step on the record model."""
+    recs, form = state['recs'], state['form']
+    k = step[0]
+    if k == 'new':
+        for it in step[2]:
+            if it[1] == 'records':
+                recs[it[2]] = route_tokens(case, it[3])
+                form[it[2]] = 'list'
+            elif it[1] == 'text':
+                f = it[2]
+                as_parsed = outcome is None or outcome.get(f, True)
+                recs[f] = [list(x) for x in it[3]]
+                form[f] = 'single' if (it[4] == 'single' and as_parsed) else 'list'
+                if it[4] == 'mixed' and as_parsed:
+                    state['mixed'].add(f)
+    elif k == 'behavior':
+        state['behavior'] = step[1]
+    elif k == 'put':
+        f, how, chunks = step[2], step[3], step[4]
+        if how == 'setdefault' and f in recs:
+            return                                  # mapping contract: a present key keeps its value
+        recs[f] = route_tokens(case, chunks)
+        form[f] = 'list'
+        state['mixed'].discard(f)
+    elif k in ('grow', 'hold'):
+        f, access = step[2], step[3]
+        if isinstance(access, list) and f not in recs:
+            recs[f] = route_tokens(case, access[1])    # setdefault on an absent key stores the default
+            form[f] = 'list'
+        if k == 'grow':
+            new = route_tokens(case, step[5])
+            if step[4] == 'insert0':
+                for x in new:
+                    recs[f].insert(0, x)
+            else:
+                recs[f].extend(new)
+    elif k == 'update-from':
+        s = case['srcs'][step[1]]
+        for f2, rr in s['expect'].items():
+            recs[f2] = [list(x) for x in rr]
+            form[f2] = 'single' if s['forms'][f2] == 'single' else 'list'
+            state['mixed'].discard(f2)
+            if s['forms'][f2] == 'mixed':
+                state['mixed'].add(f2)
+    elif k in ('plain', 'read', 'callerlist', 'dump'):
+        pass
+    else:
+        raise ValueError('unknown route step %r' % (step,))
+
+
+def route_dumpable(state):
+    """Inside the domain of a dump: every present structured field has >= 1 record."""
+    return all(state['recs'].values())
+
+
+def route_state(case):
+    return {'recs': {}, 'form': {}, 'behavior': 'apt-ftparchive' if case['cls'] == 'Release' else None,
+            'mixed': set(), 'route': dict(case.get('templates', {}))}
+
+
+def step_tag(step):
+    k = step[0]
+    if k == 'put':
+        return 'put:%s%s' % (step[3], '' if step[4] else ':empty-list')
+    if k == 'grow':
+        return 'grow:%s.%s' % (step[3] if isinstance(step[3], str) else 'setdefault', step[4])
+    if k == 'hold':
+        return 'hold:%s' % (step[3] if isinstance(step[3], str) else 'setdefault')
+    if k in ('read', 'plain'):
+        return '%s:%s' % (k, step[3])
+    if k == 'new':
+        return 'new:%s' % step[1]
+    return k
+
+
+def _route_source(r, clsname, behavior, fields, inv_p=None):
+    """One parsed paragraph (text + expected records) other records are taken from."""
+    c = gen_case(r, clsname, behavior, list(fields), 'text', inv_p=inv_p)
+    return {'cls': clsname, 'behavior': behavior, 'text': c['text'], 'input': c['input'], 'expect': c['expect'],
+            'forms': c['forms'], 'dump_first': r.choice([None, None, 'str', 'fd_bytes'])}
+
+
+def _route_new_chunk(r, names, inv_p=None):
+    return ['new', [gen_token(r, sub, inv_p) for sub in names], r.choice(ROUTE_RECTYPES), r.random() < 0.25]
+
+
+def _route_src_chunk(r, srcs, usable, ncols):
+    si, f2 = r.choice(usable)
+    recs = srcs[si]['expect'][f2]
+    n = len(recs)
+    k = r.random()
+    if k < 0.5 or n == 1:
+        sel = ['idx', [r.randrange(n)]]
+    elif k < 0.6:
+        sel = ['idx', r.sample(range(n), r.randint(1, n))]
+    elif k < 0.7:
+        sel = ['slice', r.choice([None, 0, 1, -1, -2]), r.choice([None, None, n, -1, 1, 2]),
+               r.choice([None, None, 1, 2, -1])]
+    elif k < 0.8:
+        sel = ['reversed']
+    elif k < 0.88:
+        sel = ['sorted', r.randrange(ncols)]
+    elif k < 0.95:
+        col = r.randrange(ncols)
+        sel = ['filter-len', col, r.choice(sorted(set(len(x[col]) for x in recs)))]
+    else:
+        sel = ['whole']
+    return ['src', si, f2, sel, r.choice(ROUTE_SRC_HOWS)]
+
+
+def _split_groups(r, units):
+    """units -> 1..3 consecutive non-empty groups."""
+    if len(units) <= 1 or r.random() < 0.4:
+        return [list(units)] if units else []
+    cuts = sorted(r.sample(range(1, len(units)), min(len(units) - 1, r.choice([1, 1, 2]))))
+    out, prev = [], 0
+    for c in cuts + [len(units)]:
+        out.append(list(units[prev:c]))
+        prev = c
+    return out
+
+
+def route_field_steps(r, f, names, units, template, list_form=True):
+    """The steps that fill structured field `f` with `units` (a chunk list) along `template`."""
+    key = lambda: spell(r, f)
+    put = lambda how, chunks, alias=False: ['put', key(), f, how, list(chunks), alias]
+    grow = lambda access, method, chunks: ['grow', key(), f, access, method, list(chunks)]
+    whole_how = lambda: r.choice(['setitem', 'setitem', 'setitem', 'update-mapping', 'update-pairs', 'update-kw',
+                                  'setdefault'])
+    t = template
+    if t == 'setitem':
+        return [put('setitem', units)]
+    if t in ('update-mapping', 'update-pairs', 'update-kw'):
+        return [put(t, units)]
+    if t == 'setdefault-put':
+        return [put('setdefault', units)]
+    if t == 'foreign-list':
+        return [put(r.choice(['setitem', 'setitem', 'update-mapping', 'update-kw', 'setdefault']), units, True)]
+    if t in ('empty+append', 'update-empty+append'):
+        how0 = 'setitem' if t == 'empty+append' else r.choice(['update-mapping', 'update-pairs', 'update-kw',
+                                                                'setdefault'])
+        return [put(how0, [])] + [grow('getitem', 'append', [u]) for u in units]
+    if t == 'empty+extend':
+        return [put(whole_how(), [])] + [grow('getitem', r.choice(['extend', 'extend', 'extend-gen', 'slice']), g)
+                                        for g in _split_groups(r, units)]
+    if t == 'empty+insert0':
+        return [put(whole_how(), [])] + [grow('getitem', 'insert0', [u]) for u in reversed(units)]
+    if t == 'empty+iadd':
+        return [put(whole_how(), [])] + [grow('getitem', 'iadd', g) for g in _split_groups(r, units)]
+    if t == 'empty+get.append':
+        return [put(whole_how(), [])] + [grow('get', r.choice(['append', 'append', 'extend']), [u]) for u in units]
+    if t == 'empty+held':
+        head = [put(whole_how(), []), ['hold', key(), f, r.choice(['getitem', 'getitem', 'get'])]]
+        if r.random() < 0.4:
+            return head + [grow('held', r.choice(['append', 'extend', 'extend-gen', 'iadd', 'slice']), g)
+                           for g in _split_groups(r, units)]
+        return head + [grow('held', r.choice(['append', 'append', 'insert0', 'iadd']), [u]) for u in units]
+    if t == 'setdefault.append':
+        return [grow(['setdefault', []], 'append', [u]) for u in units]
+    if t == 'setdefault.extend':
+        return [grow(['setdefault', []], r.choice(['extend', 'extend', 'extend-gen', 'iadd', 'slice', 'insert0']), g)
+                for g in _split_groups(r, units)]
+    if t == 'setdefault-held':
+        return ([['hold', key(), f, ['setdefault', []]]] +
+                [grow('held', r.choice(['append', 'append', 'append', 'extend', 'iadd']), [u]) for u in units])
+    if t == 'setdefault-rec0':
+        if len(units) == 1:
+            return [put('setdefault', units)]
+        out = [grow(['setdefault', [units[0]]], 'append', [units[1]])]
+        for u in units[2:]:
+            k = r.random()
+            if k < 0.4:
+                out.append(grow('getitem', 'append', [u]))
+            elif k < 0.7:
+                out.append(grow(['setdefault', []], 'append', [u]))
+            else:
+                # a default that must be IGNORED - the key is present by now
+                decoy = ['new', ['DECOY', ROUTE_DECOY_SIZE] + ['DECOY'] * (len(names) - 2), 'dict', False]
+                out.append(grow(['setdefault', [decoy]], 'append', [u]))
+        return out
+    if t == 'first+grow':
+        out = [put(whole_how(), units[:1])]
+        for g in _split_groups(r, units[1:]):
+            out.append(grow(r.choice(['getitem', 'getitem', 'get']),
+                            r.choice(['append', 'extend', 'extend-gen', 'iadd', 'insert0', 'slice']), g))
+        return out
+    if t == 'concat':
+        return [put('setitem', units[:1])] + [grow(r.choice(['getitem', 'get']), 'concat', [u]) for u in units[1:]]
+    if t in ('ctor-records', 'ctor-text', 'from-paragraph'):
+        # the field arrives with the 'new' / 'update-from' step; what is left here are appends behind it
+        if not list_form:
+            return []
+        return [grow(r.choice(['getitem', 'getitem', 'get']), r.choice(['append', 'append', 'extend', 'iadd']), [u])
+                for u in units]
+    raise ValueError('unknown route template %r' % (t,))
+
+
+def gen_route_read(r, clsname, state, prefer=None):
+    """A read that must not change anything, valid for the model as it stands."""
+    table = mv.DOC[clsname]
+    present = sorted(state['recs'])
+    absent = [f for f in sorted(table) if f not in state['recs']]
+    k = r.random()
+    if k < 0.2 or not (present or absent):
+        menu = list(ROUTE_READS_OBJECT)
+        if present and route_dumpable(state):
+            menu += list(ROUTE_READS_DUMPABLE)
+        how = r.choice(menu)
+        f = r.choice(present) if how == 'get_as_string' else None
+        return ['read', spell(r, f) if f else None, f, how]
+    if (k < 0.35 and absent) or not present:
+        f = r.choice(absent)
+        return ['read', spell(r, f), f, r.choice(ROUTE_READS_ABSENT)]
+    f = prefer if (prefer in state['recs'] and r.random() < 0.65) else r.choice(present)
+    if state['form'][f] == 'list':
+        menu = ROUTE_READS_LIST + (ROUTE_READS_NONEMPTY if state['recs'][f] else ())
+    else:
+        menu = ROUTE_READS_PRESENT
+    return ['read', spell(r, f), f, r.choice(menu)]
+
+
+def gen_route_case(r, clsname, behavior, present, want=None, inv_p=None):
+    """One paragraph whose structured fields are filled along build routes (want: {field: template}; the other
+    present fields draw theirs), steps of different fields in sequence or interleaved, reads and intermediate
+    dumps in between."""
+    table = mv.DOC[clsname]
+    want = dict(want or {})
+    present = list(present)
+    for f in sorted(want):
+        if f not in present:
+            present.append(f)
+    r.shuffle(present)
+    tmpl = dict((f, want.get(f) or r.choice(ROUTE_RANDOM_MENU)) for f in present)
+    stub = {'cls': clsname, 'srcs': []}
+    srcs = stub['srcs']
+
+    # -- other parsed paragraphs records are taken from
+    fromp = [f for f in present if tmpl[f] == 'from-paragraph']
+    if fromp:
+        s = _route_source(r, clsname, r.choice(BEHAVIORS) if clsname == 'Release' else None, fromp, inv_p)
+        s['whole'] = True           # handed over as a whole (update-from): never a source of single records
+        srcs.append(s)
+    need = [f for f in present if tmpl[f] == 'foreign-list']
+    maybe = [f for f in present if tmpl[f] not in ('from-paragraph', 'ctor-text', 'foreign-list') and r.random() < 0.4]
+    usable = dict((f, []) for f in present)
+    if need or maybe:
+        targets = need + maybe
+        for _ in range(r.choice([1, 1, 2])):
+            c2 = clsname
+            if r.random() < 0.3:
+                c2 = r.choice(sorted(set(c for f in targets for (c, _f2) in route_compat(clsname, f))))
+            fields2 = sorted(set(f2 for f in targets for (c, f2) in route_compat(clsname, f) if c == c2))
+            fields2 = [f2 for f2 in fields2 if r.random() < 0.8] or fields2[:1]
+            srcs.append(_route_source(r, c2, r.choice(BEHAVIORS) if c2 == 'Release' else None, fields2, inv_p))
+        lacking = [f for f in need if not any(
+            (s['cls'], f2) in route_compat(clsname, f) for s in srcs if not s.get('whole') for f2 in s['expect'])]
+        if lacking:
+            srcs.append(_route_source(r, clsname, r.choice(BEHAVIORS) if clsname == 'Release' else None, lacking, inv_p))
+        for f in targets:
+            compat = set(route_compat(clsname, f))
+            usable[f] = [(si, f2) for si, s in enumerate(srcs) if not s.get('whole')
+                         for f2 in sorted(s['expect']) if (s['cls'], f2) in compat]
+
+    # -- per field: what goes into the constructor / arrives with update-from, and the steps behind it
+    seqs, ctor_items = [], []
+    fromp_steps = []
+    for f in present:
+        names, t = table[f], tmpl[f]
+        n = r.choice([1, 2, 2, 3, 3, 4]) if r.random() < 0.93 else r.randint(5, 9)
+        trailing = r.choice([0, 0, 1, 2])
+        if t == 'foreign-list':
+            si, f2 = r.choice(usable[f])
+            units = [['src', si, f2, ['whole'], 'same']]
+        elif t == 'from-paragraph':
+            units = [_route_new_chunk(r, names, inv_p) for _ in range(trailing)]
+        elif t == 'ctor-text':
+            recs = gen_records(r, names, n, inv_p)
+            layout = r.choice(['single', 'multi']) if n == 1 else r.choice(['multi', 'multi', 'mixed'])
+            style = r.choice(['tight', 'tight', 'aligned', 'ragged'])
+            width = r.choice([16, max(len(x[1]) for x in recs), r.randint(1, 20)])
+            lines = [render_line(r, rec, style, width) for rec in recs]
+            if layout == 'single':
+                value = lines[0]
+            elif layout == 'mixed':
+                value = lines[0] + ''.join('\n %s' % l for l in lines[1:])
+            else:
+                value = ''.join('\n %s' % l for l in lines)
+            ctor_items.append([spell(r, f), 'text', f, recs, layout, value])
+            units = [_route_new_chunk(r, names, inv_p) for _ in range(trailing)] if layout != 'single' else []
+        else:
+            units = [(_route_src_chunk(r, srcs, usable[f], len(names)) if (usable[f] and r.random() < 0.5)
+                      else _route_new_chunk(r, names, inv_p)) for _ in range(n)]
+            if not route_tokens(stub, units):
+                units.append(_route_new_chunk(r, names, inv_p))
+            if t == 'ctor-records':
+                ctor_items.append([spell(r, f), 'records', f, units])
+                units = [_route_new_chunk(r, names, inv_p) for _ in range(trailing)]
+        list_form = True
+        if t == 'from-paragraph':
+            list_form = srcs[0]['forms'][f] != 'single'
+        steps = route_field_steps(r, f, names, units, t, list_form)
+        if t == 'from-paragraph':
+            fromp_steps.extend(steps)
+        elif steps:
+            seqs.append(steps)
+    if fromp:
+        seqs.append([['update-from', 0]] + fromp_steps)
+
+    # -- the object itself, plain fields, Release behaviour, the unjudged caller-held-list probe
+    how = r.choice(ROUTE_NEW_HOWS) if (ctor_items or r.random() < 0.45) else 'empty'
+    plain = r.sample(mv.PLAIN[clsname], r.randint(1, min(3, len(mv.PLAIN[clsname]))))
+    items = list(ctor_items)
+    for (k, v) in plain:
+        if how != 'empty' and r.random() < 0.6:
+            items.insert(r.randint(0, len(items)), [k, 'plain', v])
+        else:
+            seqs.append([['plain', k, v, r.choice(['setitem', 'setitem', 'update', 'setdefault'])]])
+    front = []
+    if clsname == 'Release' and (behavior != 'apt-ftparchive' or r.random() < 0.5):
+        step = ['behavior', behavior, r.choice(['attr', 'attr', 'setter'])]
+        if r.random() < 0.7:
+            front.append(step)
+        else:
+            seqs.append([step])
+    if r.random() < 0.15:
+        f = r.choice(sorted(table))
+        seqs.append([['callerlist', spell(r, f), f,
+                      [_route_new_chunk(r, table[f], inv_p) for _ in range(r.choice([1, 1, 2]))],
+                      [_route_new_chunk(r, table[f], inv_p) for _ in range(r.choice([1, 2]))]]])
+
+    # -- order: field after field, or interleaved (each field's own steps keep their order)
+    r.shuffle(seqs)
+    merged = list(front)
+    if r.random() < 0.45:
+        for s in seqs:
+            merged.extend(s)
+    else:
+        pending = [list(s) for s in seqs]
+        while pending:
+            s = r.choice(pending)
+            merged.append(s.pop(0))
+            if not s:
+                pending.remove(s)
+
+    # -- reads and intermediate dumps between the steps (placed with the model at hand)
+    state = route_state(stub)
+    first = ['new', how, items]
+    out = [first]
+    route_model(state, first, stub)
+    for step in merged:
+        out.append(step)
+        route_model(state, step, stub)
+        if r.random() < 0.4:
+            for _ in range(r.choice([1, 1, 2])):
+                out.append(gen_route_read(r, clsname, state, step[2] if step[0] in ('put', 'grow', 'hold') else None))
+        if state['recs'] and route_dumpable(state) and r.random() < 0.1:
+            out.append(['dump', r.choice(VIAS)])
+    assert route_dumpable(state), (tmpl, out)
+    return {'cls': clsname, 'behavior': behavior, 'mode': 'route', 'templates': tmpl, 'srcs': srcs, 'steps': out,
+            'dump_via': r.choice(VIAS)}
+
+
+def route_enumerated():
+    """(clsname, behavior, field, template): every structured field of every configuration x every build route."""
+    out = []
+    for clsname, behavior in mv.CONFIGS:
+        for f in sorted(mv.DOC[clsname]):
+            for t in ROUTE_TEMPLATES:
+                out.append((clsname, behavior, f, t))
+    return out
+
+
 # INV-FLOORS / LPOS-FLOORS: both enumerations are deterministic - demand half of what they must produce, per
 # (configuration, structured field, sub-field column), per (character, position) and per (configuration,
 # position of the longest size, record count), so that a run which skips SOME column / character / position
@@ -1492,6 +1950,9 @@ def _enum_floors():
             want['inv-enum:char-pos:%s:%s' % (inv_name(ch), pos)] += INV_REPS[tier]
         for (clsname, behavior, f, n, where, mode) in lpos_enumerated():
             want['lpos:%s:%s:%s' % (tag_of(clsname, behavior), where, nrec_tag(n))] += LPOS_REPS[tier]
+        for (clsname, behavior, f, t) in route_enumerated():
+            want['route-enum:%s:%s' % (tag_of(clsname, behavior), t)] += ROUTE_ENUM_REPS[tier]
+            want['route-enum:field:%s:%s' % (clsname, f)] += ROUTE_ENUM_REPS[tier]
         for k, v in want.items():
             FLOORS[tier]['counters'][k] = v // 2
 
@@ -1590,6 +2051,29 @@ def cases(ctx):
     for i in range(ctx.size(HIST['quick'], HIST['thorough'])):
         clsname, behavior = HIST_CONFIGS[i % len(HIST_CONFIGS)]
         yield gen_history(r, clsname, behavior)
+    # build routes: every structured field of every configuration x every route (enumerated), then paragraphs in
+    # which every field draws its own route
+    i = 0
+    for (clsname, behavior, f, t) in route_enumerated():
+        for rep in range(ROUTE_ENUM_REPS[ctx.tier]):
+            if ctx.mine(i):
+                rr = ctx.rng('route-enum', i)
+                others = [x for x in sorted(mv.DOC[clsname]) if x != f]
+                p = (0.0, 0.5, 1.0, 0.15, 0.85)[rep % 5]
+                sub = [x for x in others if rr.random() < p]
+                case = gen_route_case(rr, clsname, behavior, sub, want={f: t})
+                case['wl'] = ['route-enum', f, t]
+                yield case
+            i += 1
+    r = ctx.rng('route-par')
+    for i in range(ctx.size(ROUTE_RANDOM['quick'], ROUTE_RANDOM['thorough'])):
+        clsname, behavior = mv.CONFIGS[i % len(mv.CONFIGS)]
+        fields = sorted(mv.DOC[clsname])
+        p = r.choice([0.15, 0.5, 0.5, 0.85, 1.0])
+        sub = [f for f in fields if r.random() < p] or [r.choice(fields)]
+        case = gen_route_case(r, clsname, behavior, sub, inv_p=r.choice([None, None, None, 0.3]))
+        case['wl'] = ['route-par']
+        yield case
 
 
 # ---------------------------------------------------------------------------
@@ -1834,6 +2318,8 @@ def dump_and_judge(ctx, cls, clsname, obj, state, via, origin, suffix=''):
         where = '/field-parsed-from-mixed-layout' if bad[0] in mixed else ''
         if bad[0] in invf:
             where += '/token-with-invisible-character'
+        if bad[0] in state.get('route', ()):
+            where += '/field-built-via:%s' % state['route'][bad[0]]
         ctx.violation('roundtrip-%s-%s%s%s' % (origin, bad[1], where, suffix),
                       '%s(%s): dump -> parse: %s; dumped=%r%s'
                       % (clsname, behavior, bad[2], txt,
@@ -2021,6 +2507,472 @@ def count_inv(ctx, case, scan):
         ctx.count('inv-par:case')
 
 
+# ---------------------------------------------------------------------------
+# build routes: the live side
+
+def route_record(deb822, names, tokens, rectype, int_size):
+    """One record made by the caller: a plain dict (documented key order, or reversed), an OrderedDict, or the
+    library's Deb822Dict (from a dict / from pairs)."""
+    pairs = list(zip(names, tokens))
+    tok = tokens[1]
+    if int_size and tok.isascii() and tok.isdigit() and str(int(tok)) == tok:
+        pairs[1] = (names[1], int(tok))
+    if rectype == 'dict':
+        return dict(pairs)
+    if rectype == 'dict-rev':
+        return dict(reversed(pairs))
+    if rectype == 'ordereddict':
+        import collections
+        return collections.OrderedDict(reversed(pairs))
+    if rectype == 'deb822dict':
+        return deb822.Deb822Dict(dict(pairs))
+    if rectype == 'deb822dict-pairs':
+        return deb822.Deb822Dict(pairs)
+    raise ValueError('unknown record type %r' % (rectype,))
+
+
+def route_value(deb822, env, case, names, chunks, alias=False):
+    """Live side of a chunk list."""
+    if alias and len(chunks) == 1 and chunks[0][0] == 'src' and chunks[0][3] == ['whole'] and chunks[0][4] == 'same':
+        val = env['srcobjs'][chunks[0][1]][chunks[0][2]]
+        if not hasattr(val, 'keys'):
+            env['aliased'] = True
+            return val                    # the very list object the other paragraph holds
+    out = []
+    for ch in chunks:
+        if ch[0] == 'new':
+            out.append(route_record(deb822, names, ch[1], ch[2], ch[3]))
+            continue
+        _, si, f2, sel, how = ch
+        val = env['srcobjs'][si][f2]
+        lst = [val] if hasattr(val, 'keys') else val
+        k = sel[0]
+        if k == 'idx':
+            picked = [lst[i] for i in sel[1]]
+        elif k == 'slice':
+            picked = lst[slice(sel[1], sel[2], sel[3])]
+        elif k == 'reversed':
+            picked = list(reversed(lst))
+        elif k == 'sorted':
+            picked = sorted(lst, key=lambda rec: rec[names[sel[1]]])
+        elif k == 'filter-len':
+            picked = [rec for rec in lst if len(rec[names[sel[1]]]) <= sel[2]]
+        elif k == 'whole':
+            picked = list(lst)
+        else:
+            raise ValueError('unknown selection %r' % (sel,))
+        for rec in picked:
+            if how == 'same':
+                out.append(rec)
+            elif how == 'dict':
+                out.append(dict(rec))
+            elif how == 'copy':
+                out.append(rec.copy())
+            elif how == 'deb822dict':
+                out.append(deb822.Deb822Dict(rec))
+            elif how == 'items':
+                out.append(dict(rec.items()))
+            else:
+                raise ValueError('unknown way to take a record %r' % (how,))
+    return out
+
+
+def route_access(deb822, env, case, names, key, f, access):
+    obj = env['obj']
+    if access == 'getitem':
+        return obj[key]
+    if access == 'get':
+        return obj.get(key)
+    if access == 'held':
+        return env['held'][f]
+    if access[0] == 'setdefault':
+        return obj.setdefault(key, route_value(deb822, env, case, names, access[1]))
+    raise ValueError('unknown access %r' % (access,))
+
+
+def route_read(deb822, cls, env, step, table):
+    _, key, f, how = step
+    obj = env['obj']
+    if how == 'getitem':
+        obj[key]
+    elif how == 'getitem-absent':
+        try:
+            obj[key]
+        except KeyError:
+            pass
+    elif how == 'get':
+        obj.get(key)
+    elif how == 'get-default':
+        obj.get(key, [])
+    elif how == 'len':
+        len(obj[key])
+    elif how == 'bool':
+        bool(obj[key])
+    elif how == 'iter':
+        for rec in obj[key]:
+            for name in table[f]:
+                rec[name]
+    elif how == 'contains':
+        key in obj
+    elif how == 'list-copy':
+        list(obj[key])
+        obj[key][:]
+        sorted(obj[key], key=lambda rec: str(rec[table[f][1]]))
+        list(reversed(obj[key]))
+    elif how == 'rec-read':
+        lst = obj[key]
+        lst[0][table[f][1]]
+        lst[-1].get(table[f][-1])
+        list(lst[0].items())
+        dict(lst[-1])
+    elif how == 'items':
+        list(obj.items())
+    elif how == 'values':
+        list(obj.values())
+    elif how == 'keys':
+        list(obj.keys())
+        list(obj)
+    elif how == 'len-obj':
+        len(obj)
+    elif how == 'repr':
+        repr(obj)
+    elif how == 'dict':
+        dict(obj)
+    elif how == 'eq':
+        obj == obj
+        obj != cls()
+    elif how == 'get_as_string':
+        obj.get_as_string(key)
+    elif how == 'str':
+        str(obj)
+    else:
+        raise ValueError('unknown read %r' % (how,))
+
+
+def route_new(ctx, deb822, cls, env, step, case, table):
+    """The paragraph object.  Returns (object, {text field: exposed as records?}).  A constructor that refuses a
+    mapping holding record lists or record text (the unchanged tree refuses record lists with AttributeError) is
+    counted, not judged: the object is then made from the plain fields and the structured ones are assigned."""
+    how, items = step[1], step[2]
+
+    def make(m):
+        if how == 'mapping':
+            return cls(m)
+        if how == 'kw':
+            return cls(sequence=m)
+        if how == 'deb822dict':
+            return cls(deb822.Deb822Dict(m))
+        raise ValueError('unknown constructor form %r' % (how,))
+
+    ctx.count('route:new:%s' % how)
+    if how == 'empty':
+        return cls(), {}
+    full, plain, structured = {}, {}, []
+    for it in items:
+        if it[1] == 'plain':
+            full[it[0]] = plain[it[0]] = it[2]
+        elif it[1] == 'text':
+            full[it[0]] = it[5]
+            structured.append(it)
+        else:
+            full[it[0]] = route_value(deb822, env, case, table[it[2]], it[3])
+            structured.append(it)
+    kinds = sorted(set(it[1] for it in structured))
+    outcome = {}
+    if not structured:
+        return make(full), outcome
+    try:
+        obj = make(full)
+    except Exception as e:
+        for k in kinds:
+            ctx.count('route:ctor-%s-in-mapping:refused:%s' % (k, type(e).__name__))
+        obj = make(plain)
+        for it in structured:
+            if it[1] == 'text':
+                outcome[it[2]] = False
+                obj[it[0]] = [route_record(deb822, table[it[2]], rec, 'dict', False) for rec in it[3]]
+            else:
+                obj.update({it[0]: full[it[0]]})
+        return obj, outcome
+    for k in kinds:
+        ctx.count('route:ctor-%s-in-mapping:accepted' % k)
+    for it in structured:
+        if it[1] != 'text':
+            continue
+        f = it[2]
+        if compare_records(obj, {f: table[f]}, {f: it[3]}):
+            # not turned into records: nothing is demanded of record TEXT inside a mapping - assign the records
+            ctx.count('route:ctor-text-in-mapping:not-exposed-as-records')
+            outcome[f] = False
+            obj[it[0]] = [route_record(deb822, table[f], rec, 'dict', False) for rec in it[3]]
+        else:
+            ctx.count('route:ctor-text-in-mapping:exposed-as-records:%s' % it[4])
+    return obj, outcome
+
+
+def route_apply(ctx, deb822, cls, env, step, case, table):
+    """One build step through the public API of the live object."""
+    obj = env['obj']
+    k = step[0]
+    if k == 'behavior':
+        if step[2] == 'setter':
+            obj.set_size_field_behavior(step[1])
+        else:
+            obj.size_field_behavior = step[1]
+    elif k == 'plain':
+        _, key, v, how = step
+        if how == 'setitem':
+            obj[key] = v
+        elif how == 'update':
+            obj.update({key: v})
+        else:
+            obj.setdefault(key, v)
+    elif k == 'put':
+        _, key, f, how, chunks, alias = step
+        value = route_value(deb822, env, case, table[f], chunks, alias)
+        if how == 'setitem':
+            obj[key] = value
+        elif how == 'update-mapping':
+            obj.update({key: value})
+        elif how == 'update-pairs':
+            obj.update([(key, value)])
+        elif how == 'update-kw':
+            obj.update(**{key: value})
+        elif how == 'setdefault':
+            obj.setdefault(key, value)
+        else:
+            raise ValueError('unknown assignment form %r' % (how,))
+    elif k == 'hold':
+        _, key, f, access = step
+        env['held'][f] = route_access(deb822, env, case, table[f], key, f, access)
+    elif k == 'grow':
+        _, key, f, access, method, chunks = step
+        names = table[f]
+        value = route_value(deb822, env, case, names, chunks)
+        get = lambda: route_access(deb822, env, case, names, key, f, access)
+        if not value:
+            get()                         # nothing to add: the access itself (a setdefault, say) still happens
+        elif method == 'append':
+            for rec in value:
+                get().append(rec)
+        elif method == 'insert0':
+            for rec in value:
+                get().insert(0, rec)
+        elif method == 'extend':
+            get().extend(value)
+        elif method == 'extend-gen':
+            get().extend(rec for rec in value)
+        elif method == 'slice':
+            lst = get()
+            lst[len(lst):] = value
+        elif method == 'iadd':
+            if access == 'getitem':
+                obj[key] += value
+            else:
+                lst = get()
+                lst += value
+        elif method == 'concat':
+            obj[key] = get() + value
+        else:
+            raise ValueError('unknown list method %r' % (method,))
+    elif k == 'read':
+        route_read(deb822, cls, env, step, table)
+    elif k == 'update-from':
+        obj.update(env['srcobjs'][step[1]])
+    else:
+        raise ValueError('unknown route step %r' % (step,))
+
+
+def route_callerlist(ctx, deb822, cls, env, step, case, table):
+    """lst = [...]; para[field] = lst; lst.extend(...): whether the paragraph keeps the caller's list or a copy is
+    the library's choice - done on a throw-away object, the outcome is counted and nothing is judged."""
+    _, key, f, before, after = step
+    try:
+        probe = cls()
+        lst = route_value(deb822, env, case, table[f], before)
+        probe[key] = lst
+        lst.extend(route_value(deb822, env, case, table[f], after))
+        n = len(probe[key])
+        if n == len(before) + len(after):
+            ctx.count('route:callerlist:paragraph-shows-the-later-appends')
+        elif n == len(before):
+            ctx.count('route:callerlist:paragraph-keeps-what-was-assigned')
+        else:
+            ctx.count('route:callerlist:other')
+        probe.dump()
+    except Exception as e:
+        ctx.count('route:callerlist:raised:%s' % type(e).__name__)
+
+
+def count_route(ctx, case):
+    """Coverage counters of the build-route class, classified from the case itself."""
+    clsname = case['cls']
+    cfg = tag_of(clsname, case['behavior'])
+    table = mv.DOC[clsname]
+    tmpl = case['templates']
+    ctx.count('route:case')
+    ctx.count('route:config:%s' % cfg)
+    for f, t in tmpl.items():
+        ctx.count('route:template:%s' % t)
+        ctx.count('route:config-template:%s:%s' % (cfg, t))
+    n = len(tmpl)
+    ctx.count('route:other-structured-fields:%s' % ('none' if n <= 1 else ('all-present' if n == len(table) else 'some')))
+    if len(set(tmpl.values())) >= 2:
+        ctx.count('route:paragraph-with-2+-different-routes')
+    wl = case.get('wl')
+    if wl and wl[0] == 'route-enum':
+        ctx.count('route-enum:case')
+        ctx.count('route-enum:%s:%s' % (cfg, wl[2]))
+        ctx.count('route-enum:field:%s:%s' % (clsname, wl[1]))
+    elif wl and wl[0] == 'route-par':
+        ctx.count('route-par:case')
+    srcs = case.get('srcs', [])
+    if srcs:
+        ctx.count('route:src:case')
+    for s in srcs:
+        ctx.count('route:src:%s' % ('same-class' if s['cls'] == clsname else 'other-class'))
+        ctx.count('route:src:input:%s' % s['input'])
+        if s.get('dump_first'):
+            ctx.count('route:src:dumped-before-its-records-were-taken')
+    chunks_seen = []
+    for step in case['steps']:
+        if step[0] == 'new':
+            for it in step[2]:
+                if it[1] == 'records':
+                    chunks_seen.extend(it[3])
+        elif step[0] == 'put':
+            chunks_seen.extend(step[4])
+        elif step[0] == 'grow':
+            chunks_seen.extend(step[5])
+            if isinstance(step[3], list):
+                chunks_seen.extend(step[3][1])
+    for ch in chunks_seen:
+        if ch[0] == 'new':
+            ctx.count('route:rectype:%s' % ch[2])
+            if ch[3]:
+                ctx.count('route:rectype:int-size')
+        else:
+            ctx.count('route:src:how:%s' % ch[4])
+            ctx.count('route:src:selection:%s' % ch[3][0])
+            ctx.count('route:src:form:%s' % srcs[ch[1]]['forms'][ch[2]])
+
+
+def run_route(ctx, deb822, cls, clsname, case):
+    table = mv.DOC[clsname]
+    count_route(ctx, case)
+    # -- the other paragraphs (parsed as usual; a wrong parse is the ordinary parse finding)
+    srcobjs = []
+    for s in case.get('srcs', []):
+        cls2 = getattr(deb822, s['cls'])
+        try:
+            so = construct(deb822, cls2, s['text'], s['input'])
+        except Exception as e:
+            ctx.violation('parse-raises/%s' % type(e).__name__, 'parsing %r raised %r' % (s['text'], e))
+            return
+        if s['behavior']:
+            so.size_field_behavior = s['behavior']
+        bad = compare_records(so, mv.DOC[s['cls']], s['expect'])
+        if bad:
+            where = '/first-record-on-field-line-plus-continuation-lines' if s['forms'].get(bad[0]) == 'mixed' else ''
+            ctx.violation('parse-%s%s' % (bad[1], where), '%s(%s input): %s; text=%r' % (s['cls'], s['input'], bad[2], s['text']))
+            return
+        if s.get('dump_first'):
+            try:
+                do_dump(so, s['dump_first'])
+            except Exception as e:
+                absent = [f for f in mv.DOC[s['cls']] if f not in s['expect']]
+                singles = sorted(f for f, v in s['forms'].items() if v == 'single')
+                ctx.violation(dump_key(s['cls'], s['behavior'], e, absent, singles),
+                              'dump() of a parsed %s(%s) raised %s(%s)' % (s['cls'], s['behavior'], type(e).__name__, e))
+                return
+        srcobjs.append(so)
+
+    env = {'obj': None, 'held': {}, 'srcobjs': srcobjs, 'aliased': False}
+    state = route_state(case)
+    since = {}               # field -> what happened to it / the paragraph since its last grow
+    setdefault_first = set()
+    nmid = 0
+    for step in case['steps']:
+        k = step[0]
+        tag = step_tag(step)
+        ctx.count('route:step:%s' % tag)
+        if k == 'dump':
+            if not (state['recs'] and route_dumpable(state)):
+                ctx.count('route:dump:skipped-outside-domain')
+                continue
+            ctx.count('route:dump:intermediate')
+            if not dump_and_judge(ctx, cls, clsname, env['obj'], state, step[1], 'built',
+                                  '/intermediate-dump-of-incrementally-built-paragraph'):
+                return
+            ctx.mon('M.route.mid')
+            nmid += 1
+            for f in table:
+                since.setdefault(f, set()).add('dump')
+            continue
+        if k == 'callerlist':
+            route_callerlist(ctx, deb822, cls, env, step, case, table)
+            continue
+        try:
+            if k == 'new':
+                env['obj'], outcome = route_new(ctx, deb822, cls, env, step, case, table)
+            else:
+                outcome = None
+                route_apply(ctx, deb822, cls, env, step, case, table)
+        except Exception as e:
+            ctx.violation('build-step-raises/%s/%s' % (tag, type(e).__name__),
+                          '%s(%s): build step %r raised %r; records so far (model): %r'
+                          % (clsname, state['behavior'], step, e, state['recs']))
+            return
+        if k in ('grow', 'hold') and isinstance(step[3], list) and step[2] not in state['recs']:
+            if step[3][1]:
+                ctx.count('route:setdefault:default-with-records-into-absent-field')
+            else:
+                ctx.count('route:setdefault:empty-default-into-absent-field')
+            if k == 'grow':
+                setdefault_first.add(step[2])
+                ctx.count('route:setdefault:first-record-through-the-returned-list')
+        elif k == 'grow' and isinstance(step[3], list) and step[3][1]:
+            ctx.count('route:setdefault:default-on-present-field-must-be-ignored')
+        if k == 'put' and step[3] == 'setdefault' and step[2] in state['recs']:
+            ctx.count('route:setdefault:default-on-present-field-must-be-ignored')
+        route_model(state, step, case, outcome)
+        if k == 'read':
+            for f in ([step[2]] if step[2] else list(table)):
+                since.setdefault(f, set()).add('read:%s' % step[3])
+        elif k == 'grow':
+            for what in since.pop(step[2], ()):
+                ctx.count('route:grow-after:%s' % what)
+    if not route_dumpable(state):
+        raise ValueError('case outside the domain: a structured field ends up with no record')
+    if env['aliased']:
+        ctx.count('route:list-object-of-another-paragraph-handed-over')
+    ctx.count('route:dump:final')
+    ctx.count('route:intermediate-dumps:%d' % min(nmid, 3))
+    for f, recs in state['recs'].items():
+        ctx.count('route:records:%s' % nrec_tag(len(recs)))
+    if [f for f in table if f not in state['recs']] and any(len(v) >= 2 for v in state['recs'].values()):
+        ctx.nontrivial()
+    if not dump_and_judge(ctx, cls, clsname, env['obj'], state, case.get('dump_via', 'str'), 'built',
+                          '/incrementally-built-paragraph'):
+        return
+    ctx.mon('M.route')
+    if setdefault_first:
+        ctx.mon('M.route.setdefault')
+    if any(ch[0] == 'src' for step in case['steps'] if step[0] in ('put', 'grow')
+           for ch in (step[4] if step[0] == 'put' else step[5])) or any(s.get('whole') for s in case.get('srcs', [])):
+        ctx.mon('M.route.src')
+    # -- taking records out of a paragraph (reading, copying, slicing) must leave that paragraph as it was
+    for s, so in zip(case.get('srcs', []), srcobjs):
+        if s.get('whole'):
+            continue                  # its lists were handed over as a whole and may have been appended to
+        bad = compare_records(so, mv.DOC[s['cls']], s['expect'])
+        if bad:
+            ctx.violation('source-paragraph-changed-after-its-records-were-taken/%s' % bad[1],
+                          '%s: %s' % (s['cls'], bad[2]))
+            return
+        ctx.mon('M.route.src-unchanged')
+
+
 def run_case(ctx, case):
     from debian import deb822
     clsname = case['cls']
@@ -2032,6 +2984,10 @@ def run_case(ctx, case):
     ctx.count('mode:%s' % mode)
     if case['behavior']:
         ctx.count('behavior:%s' % case['behavior'])
+
+    if mode == 'route':
+        run_route(ctx, deb822, cls, clsname, case)
+        return
 
     if mode == 'text':
         expect = case['expect']
